@@ -173,20 +173,22 @@ Definition number_kind (lit : bytes) : tkind :=
   | _ => ILLEGAL
   end.
 
-(* tokens that end with the common tail  l.readChar(); tok.LineNumber = l.curLine *)
-Definition tail_tok (k : tkind) (lit : bytes) (l : lx) : token * lx :=
-  let l' := adv l in (mktok k lit (lline l'), l').
-(* tokens returned early, stamped with the current line *)
-Definition now_tok (k : tkind) (lit : bytes) (l : lx) : token * lx :=
-  (mktok k lit (lline l), l).
+(* tokens that end with the common tail  l.readChar(); every token carries the
+   line [sl] on which it starts (startLine in the Go code) *)
+Definition tail_tok (sl : nat) (k : tkind) (lit : bytes) (l : lx) : token * lx :=
+  (mktok k lit sl, adv l).
+(* tokens returned early *)
+Definition now_tok (sl : nat) (k : tkind) (lit : bytes) (l : lx) : token * lx :=
+  (mktok k lit sl, l).
 
 (* string(l.ch): a byte converted to a rune and UTF-8 encoded *)
 Definition byte_string (c : N) : bytes := if c <? 128 then [c] else [192 + c / 64; 128 + c mod 64].
-Definition one (l : lx) (k : tkind) : token * lx := tail_tok k (byte_string (ch l)) l.
-Definition two (l : lx) (k : tkind) (lit : bytes) : token * lx := tail_tok k lit (adv l).
+Definition one (l : lx) (k : tkind) : token * lx := tail_tok (lline l) k (byte_string (ch l)) l.
+Definition two (l : lx) (k : tkind) (lit : bytes) : token * lx := tail_tok (lline l) k lit (adv l).
 
 Fixpoint next_inside (fuel : nat) (l0 : lx) : token * lx :=
   let l := skip_ws l0 in
+  let sl := lline l in
   let c := ch l in
   let p := peek l in
   if c =? 61 then (if p =? 61 then two l EQ [61; 61] else one l ASSIGN)
@@ -195,8 +197,8 @@ Fixpoint next_inside (fuel : nat) (l0 : lx) : token * lx :=
        let lit := span (fun x => is_digit x || is_dot x) (lrest l) in
        let l' := advn (length lit) l in
        match number_kind lit with
-       | ILLEGAL => now_tok ILLEGAL lit l'
-       | k => tail_tok k lit l'       (* break -> common tail: one more byte is consumed *)
+       | ILLEGAL => now_tok (lline l') ILLEGAL lit l'
+       | k => tail_tok sl k lit l'       (* break -> common tail: one more byte is consumed *)
        end
      else one l DOT)
   else if c =? 43 then one l PLUS
@@ -211,9 +213,9 @@ Fixpoint next_inside (fuel : nat) (l0 : lx) : token * lx :=
   else if c =? 60 then
     (if p =? 37 then
        let l1 := adv (set_inside true l) in
-       if peek l1 =? 35 then tail_tok C_START [60; 37; 35] (adv l1)
-       else if peek l1 =? 61 then tail_tok E_START [60; 37; 61] (adv l1)
-       else tail_tok S_START [60; 37] l1
+       if peek l1 =? 35 then tail_tok sl C_START [60; 37; 35] (adv l1)
+       else if peek l1 =? 61 then tail_tok sl E_START [60; 37; 61] (adv l1)
+       else tail_tok sl S_START [60; 37] l1
      else if p =? 61 then two l LTEQ [60; 61]
      else one l LT)
   else if c =? 126 then (if p =? 61 then two l MATCHES [126; 61] else one l MATCHES)
@@ -227,13 +229,13 @@ Fixpoint next_inside (fuel : nat) (l0 : lx) : token * lx :=
   else if c =? 41 then one l RPAREN
   else if c =? 34 then
     let '(raw, k) := at_str (tl (lrest l)) in
-    tail_tok STRING (replace_esc_quote raw) (advn (S k) l)
+    tail_tok sl STRING (replace_esc_quote raw) (advn (S k) l)
   else if c =? 96 then
     let '(raw, k) := at_bstr (tl (lrest l)) in
-    tail_tok B_STRING raw (advn (S k) l)
+    tail_tok sl B_STRING raw (advn (S k) l)
   else if c =? 35 then
     match fuel with
-    | O => now_tok EOF [] l               (* unreachable with enough fuel *)
+    | O => now_tok sl EOF [] l            (* unreachable with enough fuel *)
     | S f =>
         match lrest l with
         | [] => next_inside f l           (* cannot happen: ch = '#' *)
@@ -242,13 +244,16 @@ Fixpoint next_inside (fuel : nat) (l0 : lx) : token * lx :=
     end
   else if c =? 91 then one l LBRACKET
   else if c =? 93 then one l RBRACKET
-  else if c =? 0 then tail_tok EOF [] l
+  else if c =? 0 then tail_tok sl EOF [] l
   else if is_letter c then
     let lit := span (fun x => is_letter x || is_digit x) (lrest l) in
-    now_tok (lookup_ident lit) lit (advn (length lit) l)
+    now_tok sl (lookup_ident lit) lit (advn (length lit) l)
   else if is_digit c then
     let lit := span (fun x => is_digit x || is_dot x) (lrest l) in
-    now_tok (number_kind lit) lit (advn (length lit) l)
+    (match number_kind lit with
+     | ILLEGAL => now_tok (lline (advn (length lit) l)) ILLEGAL lit (advn (length lit) l)
+     | k => now_tok sl k lit (advn (length lit) l)
+     end)
   else one l ILLEGAL.
 
 (* Lexer.NextToken *)
